@@ -4,7 +4,7 @@ with what is actually built; properties listed in BUILT are claimed, the others 
 with the reason 'check not built yet' (a temporary state while the harness is under construction)."""
 import json, subprocess
 
-BUILT = ["C01", "C02", "C04", "C05", "C06", "C09", "C13", "C14", "C15"]
+BUILT = ["C01", "C02", "C04", "C05", "C06", "C07", "C09", "C10", "C11", "C12", "C13", "C14", "C15", "C18"]
 
 HOOK_COMMITS = ["d149e00"]
 
@@ -33,6 +33,26 @@ P = {
    technique="metamorphic property-based testing (colour mirror, side-to-move negation, irrelevance of non-placement fields, bound) with an exhaustive single-piece basis",
    text="The evaluation is a sum over pieces blended by a phase weight, so symmetry on the complete single-piece basis at every phase weight (exhaustive, 18,400 cases) plus random whole placements up to nine queens a side decides the relations; the bound is checked on every case.",
    note="Trusted base: the oracle's mirror(); no reference evaluation is needed (relations only)."),
+ "C07": dict(level="fault_enumeration", design="DESIGN.md §5 C07",
+   technique="fault enumeration over the clock: a cfg-guarded virtual clock makes 'the k-th consultation expires' an input; every k up to a bound is executed for proptest-generated positions and compared metamorphically with a larger allowance (prefix law), with invariants after each run",
+   text="The fault is expiry of the allowance; its location (which node) is the quantifier. For each generated position every expiry index 0..=K (K 1500 quick / 5000 thorough, scaled down deterministically for quiescence-heavy positions) plus sampled deeper ones is executed in-process on the real search code, ~200k searches per quick run. Each run must not panic, must restore the repetition record, must hand back oracle-legal root successors, and its reported improvements and moves must be a prefix of those of the reference run with a larger allowance.",
+   note="Assumes the virtual clock hook (first line of utils::out_of_time) is the only time source of the search; OS thread interleavings of the real binary are sampled by C03/C08, not enumerated. Expiry points beyond ~20k (quick) / 60k (thorough) consultations are only sampled."),
+ "C10": dict(level="exploration", design="DESIGN.md §5 C10",
+   technique="property-based testing with a model of the game history (multiset of oracle positions) for the repetition record, and generated repetition games searched under the virtual clock for the draw scoring; black-box differential sessions for the reset between position commands",
+   text="Generated games with 0-25 out-and-back cycles are given to the engine's position handler and the record compared with the exact multiset of positions; in the search part the side to move (often materially lost) has a move into a position seen 2-6 times and every completed depth must score >= 0.",
+   note="Trusted base: oracle position identity (FEN convention for the en passant target). Depths 1..4 examined."),
+ "C11": dict(level="exploration", design="DESIGN.md §5 C11",
+   technique="property-based testing against an independent bounded mate solver, on constructed mate / near-mate positions (incl. a dedicated knight-promotion-only mate constructor), with the move played read off at every expiry point of the virtual clock",
+   text="~7000 constructed and walked positions per quick run are classified by the solver (mate in 1, under-promotion-only mate, avoidable threat, ...); the moves the engine would play at every expiry point after iteration 1 / 2 are checked to mate / to avoid the mate, with direct re-runs; every `score mate N` claim (130k per quick run) is judged by the solver (|N| <= 3).",
+   note="Cases carry no repetition history (a draw by repetition legitimately overrides mate avoidance, C10). Mate claims with |N| > 3 or over the solver budget are counted as unjudged."),
+ "C12": dict(level="exploration", design="DESIGN.md §5 C12",
+   technique="differential testing against a reference model: plain fail-soft alpha-beta minimax over the engine's own generator and evaluation with its leaf rules, the model itself cross-checked against unpruned minimax on every run; cases generated by proptest with repetition histories",
+   text="For ~1500 generated positions per quick run (40k thorough), with and without repetition history, the scores the engine reports for depths 1-3 and the moves it selects are compared with the exact minimax value computed by the reference.",
+   note="Trusted base: the reference search (harness/src/props/searchsem.rs, 90 lines) - validated against unpruned minimax on small positions each run."),
+ "C18": dict(level="exploration", design="DESIGN.md §5 C18",
+   technique="property-based testing of captured search output under the virtual clock at enumerated expiry points with a strict line grammar and oracle legality of the first pv move; black-box checks of the real binary's lines in timed sessions",
+   text="Every info line of ~75k searches per quick run (all expiry points up to 300, every fifth beyond, sampled deep ones) is parsed strictly and checked for depth order, score bounds, sentinel leakage, strictly increasing scores within a depth and a legal first pv move.",
+   note="Output is captured through the send_to_gui hook, i.e. after formatting."),
  "C09": dict(level="exploration", design="DESIGN.md §5 C09",
    technique="property-based testing of the time policy against the stated bounds in exact terms (generated clocks incl. extremes + exhaustive grid around the safety margin), metamorphic independence from the opponent's clock, generated `go` token lists for the parser, and black-box latency measurement of the real binary against the engine's own plan",
    text="The planned slice is a pure function: 600k generated clock settings (12M thorough) plus the complete grid around the 100 ms margin are checked against the stated upper bounds and for independence from the other side's clock; the `go` parser is checked on generated token orders with ignorable tokens. The measured go->bestmove delay of the real binary is compared with the plan (tolerance 500 ms, three serial re-measurements before a violation).",
